@@ -1,4 +1,5 @@
 import BdModel.Proofs.Hist
+import BdModel.Proofs.HistNames
 /-
   C06 — history queries return exactly what was recorded, per DAG.
   Property theorems only (helpers: Proofs/Hist.lean). Record layer of the store AFTER the fixes
@@ -177,6 +178,59 @@ theorem C06_rename (s : Store) (d d2 : Nat) (hne : d ≠ d2) :
     rw [mem_glob]
     simpa [filesOf] using hf
 
+
+/-! ### string layer: which file names the per-DAG glob pattern selects (fix 2ac8499, finding F2) -/
+section names
+open BdModel.Hist.Names
+
+/-- **C06 (the glob pattern of a DAG selects exactly the files named after it).** For EVERY path prefix
+    `pwd` = `<data>/<name>-<md5>/<name>` — whatever characters the data directory and the DAG name
+    contain, glob meta characters included — a file name matches `globPattern pwd` iff it is `pwd`,
+    followed by a stretch without a path separator, followed by `.dat`. -/
+theorem C06_glob (pwd name : List Char) :
+    gmatch (globPattern pwd) name = true ↔ ∃ mid, name = pwd ++ mid ++ extDat ∧ sep ∉ mid := by
+  unfold globPattern
+  rw [gmatch_escape_append]
+  constructor
+  · rintro ⟨s', rfl, hg⟩
+    rw [gmatch_star, gstar_iff] at hg
+    obtain ⟨mid, t, rfl, hm, ht⟩ := hg
+    have : t = extDat := by
+      have := (gmatch_escape extDat t).mp (by rw [escapeGlob_id _ ext_plain]; exact ht)
+      exact this
+    subst this
+    exact ⟨mid, by simp [List.append_assoc], hm⟩
+  · rintro ⟨mid, rfl, hm⟩
+    refine ⟨mid ++ extDat, by simp [List.append_assoc], ?_⟩
+    rw [gmatch_star, gstar_iff]
+    refine ⟨mid, extDat, rfl, hm, ?_⟩
+    have := (gmatch_escape extDat extDat).mpr rfl
+    rwa [escapeGlob_id _ ext_plain] at this
+
+/-- every file the store creates for a DAG (original or compacted twin) is selected by its pattern -/
+theorem C06_glob_selects_own (pwd ts req8 : List Char) (comp : Bool) (h1 : sep ∉ ts) (h2 : sep ∉ req8) :
+    gmatch (globPattern pwd) (render pwd ts req8 comp) = true := by
+  rw [C06_glob]
+  refine ⟨'.' :: ts ++ '.' :: req8 ++ (if comp then twinSfx else []), by simp [render, List.append_assoc], ?_⟩
+  have hs : sep ≠ '.' := by decide
+  cases comp
+  · simp [h1, h2, hs]
+  · have : sep ∉ twinSfx := by decide
+    simp [h1, h2, hs]
+    decide
+
+/-- nothing outside the DAG's own `<dir>/<name>` prefix is ever selected (no other DAG's files, however
+    its name relates to this one: shared prefix, `_c`, meta characters) -/
+theorem C06_glob_only_own (pwd name : List Char) (h : gmatch (globPattern pwd) name = true) : pwd <+: name := by
+  obtain ⟨mid, rfl, _⟩ := (C06_glob pwd name).mp h
+  exact ⟨mid ++ extDat, by simp [List.append_assoc]⟩
+
+/-- the unescaped pattern of the pinned tree did not select the files of `job[1]` (F2 witness) -/
+example : gmatch (['d', '/', 'j', '[', '1', ']'] ++ '*' :: extDat) (render ['d', '/', 'j', '[', '1', ']'] ['t'] ['r'] false) = false := by decide
+example : gmatch (globPattern ['d', '/', 'j', '[', '1', ']']) (render ['d', '/', 'j', '[', '1', ']'] ['t'] ['r'] false) = true := by decide
+
+end names
+
 /-! non-vacuity: two runs of DAG 0 started in the same second (stamps 1000 and 1500 ms), the older one
     compacted, one run of DAG 1; queries distinguish them -/
 def demo : Store :=
@@ -200,3 +254,6 @@ end BdModel.P06
 #print axioms BdModel.P06.C06_independence_seq
 #print axioms BdModel.P06.C06_retention
 #print axioms BdModel.P06.C06_rename
+#print axioms BdModel.P06.C06_glob
+#print axioms BdModel.P06.C06_glob_selects_own
+#print axioms BdModel.P06.C06_glob_only_own
